@@ -6,7 +6,7 @@
        ([C10_padding_preserved]); the per-kernel instances are the fifth clause of [kernel_post] in
        Properties_C08.v / Properties_C09.v (they hold for every header, owned or not).
    (b) a destination allocated by the call (mzd_init = appended zeroed block in this model; that
-       mzd_init zeroes whatever the heap history is the calloc_zero theorem of Sys/Alloc*) ends with
+       mzd_init zeroes whatever the heap history is the calloc_zero theorem of the Sys/Alloc files) ends with
        zero padding and the result value, and nothing of the previous allocation is touched.
    (c) results depend only on the operand VALUES ([abs]), not on the surrounding words or on the prior
        contents of the destination beyond what the operation keeps: the refinement equations
@@ -18,7 +18,7 @@
 From Coq Require Import List NArith Arith Lia Bool.
 From M4 Require Import Base.Bits Lin.Mat Lin.Ops Lin.OpsProofs Alg.Gray Alg.GrayProofs
   Word.WMat Word.WOps Word.WMatLemmas Word.WRefine2 Word.WRefine3 Word.WRefine9 Word.WRefine10
-  Word.WRefineViews Word.WRefineRefuted.
+  Word.WRefine13 Word.WRefineViews Word.WRefineRefuted.
 Import ListNotations.
 Local Open Scope nat_scope.
 
@@ -54,25 +54,29 @@ Theorem C10_extract_l_padding : forall hL hA mem,
 Proof. exact w_extract_l_fx_ok. Qed.
 Print Assumptions C10_extract_l_padding.
 
+(** the one-line mask repair [w_row_clear_offset_fixed] (whole zero-word stores): same situation *)
+Theorem C10_row_clear_offset_fixed_padding : forall h mem r co,
+  valid h mem -> r < h_nrows h -> co < h_ncols h ->
+  exists m', w_row_clear_offset_fixed h r co mem = Ok m' /\ length m' = length mem /\ mem_ok m' /\
+    abs h m' = row_clear_offset (abs h mem) r co /\
+    outside (widen h) mem m' /\
+    (padding_zero h mem -> outside h mem m' /\ padding_zero h m').
+Proof. exact w_row_clear_offset_fixed_ok. Qed.
+Print Assumptions C10_row_clear_offset_fixed_padding.
+
 (** ** (b) destinations allocated by the call *)
 (** the block appended by mzd_init is valid, all zero, has zero padding, and older headers keep
     their meaning and share no word with it *)
 Theorem C10_alloc_zero : forall mem r c, mem_ok mem ->
   let mem0 := fst (w_alloc mem r c) in let hN := snd (w_alloc mem r c) in
   valid hN mem0 /\ abs hN mem0 = mzero r c /\ padding_zero hN mem0 /\ owned hN = true.
-Proof.
-  exact (fun mem r c Hm => conj (alloc_valid mem r c Hm) (conj (alloc_abs_zero mem r c)
-           (conj (alloc_padding mem r c) eq_refl))).
-Qed.
+Proof. exact alloc_zero_full. Qed.
 Print Assumptions C10_alloc_zero.
 
 Theorem C10_alloc_old : forall mem r c h, valid h mem ->
   valid h (fst (w_alloc mem r c)) /\ abs h (fst (w_alloc mem r c)) = abs h mem /\
   wdisjoint (snd (w_alloc mem r c)) h.
-Proof.
-  exact (fun mem r c h Hv => conj (alloc_old_valid mem r c h Hv) (conj (alloc_old_abs mem r c h Hv)
-           (alloc_disjoint mem r c h Hv))).
-Qed.
+Proof. exact alloc_old_full. Qed.
 Print Assumptions C10_alloc_old.
 
 Theorem C10_add_fresh : forall hA hB mem,
